@@ -240,12 +240,15 @@ fn main() {
     // Shapes that cross imbl's internal chunking (leaves of 64 elements):
     // every payload length 0..=max_big with canonical ordered content on
     // vectors of selected lengths, and every index on those vectors.
-    let max_big: usize = if quick { 200 } else { 520 };
+    // Round 7 (seeded C18-13: a "map in batches of 256" rewrite that rotates payloads of 257 items or more)
+    // raised the dense range and added isolated lengths around 1024 and around imbl's second tree level (64 * 64).
+    let max_big: usize = if quick { 520 } else { 1100 };
+    let extra_big: &[usize] = if quick { &[1023, 1024, 1025, 4095, 4096, 4097, 4161] } else { &[2047, 2048, 2049, 4095, 4096, 4097, 4161, 8191, 8192, 8193, 12289] };
     let mut big_pairs = 0u64;
     for vlen in [0usize, 1, 63, 64, 65, 129] {
         let v: Vec<u16> = (0..vlen as u16).collect();
         let mut ds: Vec<VectorDiff<u16>> = vec![VectorDiff::Clear, VectorDiff::PopFront, VectorDiff::PopBack, VectorDiff::PushFront { value: 9000 }, VectorDiff::PushBack { value: 9001 }];
-        for plen in 0..=max_big {
+        for plen in (0..=max_big).chain(extra_big.iter().copied()) {
             let payload: Vector<u16> = (0..plen as u16).map(|x| 1000 + x).collect();
             ds.push(VectorDiff::Append { values: payload.clone() });
             ds.push(VectorDiff::Reset { values: payload });
@@ -288,14 +291,14 @@ fn main() {
             "engine": "seqmc",
             "evaluations": out.cases,
             "distinct_nontrivial": pairs,
-            "rule": "every vector of length 0..=max_len over 3 values x every diff of all eleven kinds with every index/length 0..=len+2 and every payload of length 0..=max_payload x four mappings (identity, +10 into u16, constant, to String) plus the identity-equality check; plus large shapes: vectors of length 0/1/63/64/65/129 x Append and Reset with every payload length 0..=max_big (ordered distinct content, crossing imbl's 64-element leaves) and every index for the other kinds; distinct_nontrivial = distinct (vector, diff) pairs",
+            "rule": "every vector of length 0..=max_len over 3 values x every diff of all eleven kinds with every index/length 0..=len+2 and every payload of length 0..=max_payload x four mappings (identity, +10 into u16, constant, to String) plus the identity-equality check; plus large shapes: vectors of length 0/1/63/64/65/129 x Append and Reset with every payload length 0..=max_big and the isolated lengths listed under bounds (ordered distinct content, crossing imbl's 64-element leaves) and every index for the other kinds; distinct_nontrivial = distinct (vector, diff) pairs",
             "samples": out.samples,
             "states": pairs.max(1),
             "transitions": out.applies.max(1),
             "traces_validated_against_impl": out.cases,
             "exhaustive": out.violations.is_empty(),
             "cap_hit": false,
-            "bounds": {"max_len": max_len, "max_payload_len": max_payload, "values": nvals, "large_shapes": {"vector_lengths": [0, 1, 63, 64, 65, 129], "payload_lengths": format!("0..={max_big}")}},
+            "bounds": {"max_len": max_len, "max_payload_len": max_payload, "values": nvals, "large_shapes": {"vector_lengths": [0, 1, 63, 64, 65, 129], "payload_lengths": format!("0..={max_big} and {extra_big:?}")}},
             "interesting_events": {"cases_that_must_panic": out.panics_expected},
             "violation_replays": replays,
         },
